@@ -690,3 +690,87 @@ pub fn run_rooms(data: &Value) -> Vec<Line> {
     }
     lines
 }
+
+// ---------------------------------------------------------------------------------------------
+// engine-exhaustive (thorough): ALL schedules of small trees, depth-first over every scheduling
+// and notify_one decision (no spurious wake-ups)
+
+pub fn gen_engine_exhaustive(r: &mut Rng, tier: &str) -> Vec<Case> {
+    let n = scale(tier, 6, 60);
+    (0..n)
+        .map(|i| {
+            let with_panic = i % 3 == 2;
+            let size = 2 + r.usize(4);
+            let tree = gen::gen_tree(r, size, with_panic);
+            let threads = [2u64, 2, 3][i % 3];
+            Case { stream: "engine-exhaustive", data: json!({"tree": tree.to_json(), "threads": threads, "max_runs": scale(tier, 400, 6000)}) }
+        })
+        .collect()
+}
+
+pub fn run_engine_exhaustive(data: &Value) -> Vec<Line> {
+    let tree = Arc::new(Tree::from_json(&data["tree"]));
+    let threads = data["threads"].as_u64().unwrap_or(2) as u32;
+    let max_runs = data["max_runs"].as_u64().unwrap_or(400) as usize;
+    let best = tree.best();
+    let has_panic = tree.has_panic();
+    let mut lines = vec![];
+    let mut prefix: Option<Vec<usize>> = Some(vec![]);
+    let mut runs = 0usize;
+    let mut bad: Option<String> = None;
+    let mut sample_traces: Vec<Value> = vec![];
+    while let Some(p) = prefix.clone() {
+        if runs >= max_runs {
+            break;
+        }
+        runs += 1;
+        let log = Arc::new(std::sync::Mutex::new(vec![]));
+        let out = sched::run_tree_with(&tree, threads, sched::exhaustive_chooser(p.clone(), log.clone()), 50_000);
+        let l = log.lock().unwrap().clone();
+        let finished = !(out.deadlock || out.budget);
+        let mut problem: Option<String> = None;
+        if !finished {
+            problem = Some(format!("schedule {:?}: {}", l.iter().map(|x| x.1).collect::<Vec<_>>(), if out.budget { "step budget used up" } else { "no runnable thread while some worker unfinished (deadlock)" }));
+        } else {
+            match &out.result {
+                Ok((res, st)) => {
+                    if !has_panic && res.as_ref().map(|x| x.1) != best {
+                        problem = Some(format!("schedule {:?}: returned {:?}, best leaf {:?}", l.iter().map(|x| x.1).collect::<Vec<_>>(), res.as_ref().map(|x| x.1), best));
+                    } else if !sched::stats_ok(st) || out.leftover != 0 {
+                        problem = Some(format!("schedule {:?}: statistics do not add up / left-over threads {}", l.iter().map(|x| x.1).collect::<Vec<_>>(), out.leftover));
+                    }
+                }
+                Err(_) => {
+                    let executed_panic = out.trace.iter().any(|e| matches!(e, cdecao::verif::sched::Event::Exit(_, true)));
+                    if !executed_panic {
+                        problem = Some(format!("schedule {:?}: bab::solve failed although no worker failed", l.iter().map(|x| x.1).collect::<Vec<_>>()));
+                    }
+                }
+            }
+        }
+        // every 50th schedule (and every problematic one) is also replayed through the model
+        if problem.is_some() || runs % 50 == 1 {
+            if let Ok(tj) = sched::trace_json(&out.trace, &|body| body.split(", ").nth(1).and_then(|x| x.trim_end_matches(')').parse::<usize>().ok())) {
+                let result = match &out.result {
+                    Ok((res, st)) => sched::stats_json(res.as_ref().map(|(s, sc)| (*s as u64, *sc)), st),
+                    Err(_) => json!({"panic": true}),
+                };
+                sample_traces.push(json!({"threads": threads, "nodes": tree.to_json(), "trace": tj, "result": result}));
+            }
+        }
+        if problem.is_some() && bad.is_none() {
+            bad = problem;
+        }
+        prefix = sched::next_prefix(&l);
+    }
+    let exhausted = prefix.is_none();
+    let props: &[&'static str] = if has_panic { &["C19", "C04"] } else { &["C03", "C04", "C09"] };
+    lines.push(Line::direct(props, bad.is_none(), match &bad {
+        Some(b) => b.clone(),
+        None => format!("{} schedules of a {}-node tree with {} workers explored ({}), all finish with the right result", runs, tree.nodes.len(), threads, if exhausted { "ALL schedules" } else { "budget reached" }),
+    }).feat(&[format!("exhausted={}", exhausted), format!("runs~{}", (runs / 100) * 100)]));
+    for t in sample_traces.into_iter().take(40) {
+        lines.push(Line::corr(props, "T", t.to_string(), "ok".to_string()));
+    }
+    lines
+}
